@@ -23,7 +23,7 @@ ASSUMPTIONS = [
     "masked: NBSP written as a character reference (the implementation replaces characters of the source text only)",
     "attribute and element names are compared as written (prefix:local); namespace declarations may move",
 ]
-REQUIRED = ["documents_starting_with_a_byte_order_mark", "documents_with_internal_entities", "documents_after_the_rest_of_the_library_was_used", "library_modules_imported", "cross_mode_cases", "strings", "strings_with_nbsp", "documents", "documents_twice", "protected_segments", "normalised_segments", "attribute_values",
+REQUIRED = ["documents_larger_than_one_mebibyte", "documents_starting_with_a_byte_order_mark", "documents_with_internal_entities", "documents_after_the_rest_of_the_library_was_used", "library_modules_imported", "cross_mode_cases", "strings", "strings_with_nbsp", "documents", "documents_twice", "protected_segments", "normalised_segments", "attribute_values",
             "xsi_attributes", "protected_nested_in_protected"]
 EXHAUSTIVE = {"quick": False, "thorough": False}
 
@@ -219,8 +219,26 @@ def judge_doc(ctx, doc, text):
 from vlib.pipeline import use_the_rest_of_the_library  # noqa: E402
 
 
+def big_document(ctx):
+    """A document of a little over one MiB with non-breaking spaces sitting exactly on (and next to) the byte offsets 2**12 ... 2**20 of
+    its UTF-8 encoding - where an implementation that works block by block has its seams."""
+    for d in (-1, 0, -2):
+        parts, size = ['<dataset><title>'], len('<dataset><title>')
+        for tgt in [2 ** k + d for k in range(12, 21)]:
+            fill = tgt - size
+            chunk = ("word " * (fill // 5 + 1))[:fill - 1] + "x"
+            parts.append(chunk + "\xa0")
+            size += fill + 2          # the non-breaking space takes two bytes
+        parts.append(" end</title><para> kept  as\xa0is </para></dataset>")
+        text = "".join(parts)
+        ctx.count("documents_larger_than_one_mebibyte")
+        judge_doc(ctx, xmlgen.read(text), text)
+
+
 def run(ctx, params):
     rng = ctx.rng
+    if params.get("salt", 0) == 0:
+        ctx.case(big_document, ctx, seconds=300.0)
     for i in range(params["strings"]):
         n = rng.choice([0, 1, 2, 3, 5, 8, 13, 30])
         s = "".join(rng.choice(STR_ALPH) for _ in range(n))
